@@ -38,6 +38,7 @@ func drawRCase(t *rapid.T, o rOpts) rt.Case {
 		}
 	}
 	c.Cfg.CommitHonoursCtx = rapid.Bool().Draw(t, "commit-honours-ctx")
+	c.Cfg.SyncCtxPerCall = rapid.Bool().Draw(t, "sync-ctx-per-call")
 	if n >= 5 && rapid.IntRange(0, 5).Draw(t, "absent?") == 0 {
 		c.Cfg.AbsentAt = uint64(rapid.IntRange(1, 3).Draw(t, "absent-at")) // membership change: the node sits out one height
 	}
